@@ -94,6 +94,7 @@ func render(f family, ks []string) string {
 }
 
 var comRe = regexp.MustCompile(`^\s*# c(\d+)$`)
+var sameTextRe = regexp.MustCompile(`# c\d+`)
 var idRe = regexp.MustCompile(`(?:x|A|10{0,2})(\d+)`)
 
 // layoutOf extracts the scope's lines from formatted text.
@@ -269,6 +270,21 @@ func Replay(args []string) int {
 				}
 			}
 			counts[fam.name+":checked"]++
+			// the same layout with every comment carrying the same text (rulers, doubled
+			// spacers, repeated TODO lines): as many comment lines must come out as went in
+			{
+				same := sameTextRe.ReplaceAllString(src, "# note")
+				if fs, err := p.FormatSrcBytes([]byte(same), "in.mro", false, nil); err == nil {
+					n0, n1 := strings.Count(same, "# note\n"), strings.Count(fs, "# note\n")
+					if n1 < n0 {
+						viols = append(viols, Violation{fam.name, "comment-lost", same, fs,
+							fmt.Sprintf("lost: %d of %d comment lines that all read `# note`", n0-n1, n0)})
+					} else if n1 > n0 && r.Restricted {
+						viols = append(viols, Violation{fam.name, "comment-not-once", same, fs,
+							fmt.Sprintf("%d comment lines `# note` went in, %d came out", n0, n1)})
+					}
+				}
+			}
 			// the model's layout
 			if !r.Restricted {
 				continue // where trailing comments go depends on what follows the scope
